@@ -171,6 +171,8 @@ type loopInfo struct {
 	rangeIx      *ssa.Phi
 	resolved     map[string]ssa.Value
 	resolvedAddr map[string]bool
+	parent       *loopInfo
+	hasBreak     bool
 }
 
 func (fx *FnCtx) oblige(kind, name, text string, st *State, goal Term, pos token.Pos, props []string) {
@@ -674,6 +676,29 @@ func findLoops(fn *ssa.Function) map[*ssa.BasicBlock]*loopInfo {
 		hdrs = append(hdrs, h)
 	}
 	sort.Slice(hdrs, func(i, j int) bool { return hdrs[i].Index < hdrs[j].Index })
+	for _, h := range hdrs {
+		li := loops[h]
+		// innermost enclosing loop
+		for _, h2 := range hdrs {
+			if h2 == h {
+				continue
+			}
+			l2 := loops[h2]
+			if l2.body[h] && (li.parent == nil || len(l2.body) < len(li.parent.body)) {
+				li.parent = l2
+			}
+		}
+		for b := range li.body {
+			if b == h {
+				continue
+			}
+			for _, sc := range b.Succs {
+				if !li.body[sc] {
+					li.hasBreak = true
+				}
+			}
+		}
+	}
 	for i, h := range hdrs {
 		loops[h].ordinal = i + 1
 		for _, ins := range h.Instrs {
@@ -717,6 +742,9 @@ func (fr *Frame) run(args []Val, bindings []Val, st *State) ([]Val, *State) {
 				continue
 			}
 		}
+		if fr.top {
+			fx.s.setScope(fr.scopeOf(b))
+		}
 		if li, ok := fr.loops[b]; ok {
 			cur = fr.enterLoop(li, cur)
 		} else {
@@ -739,6 +767,25 @@ func (fr *Frame) run(args []Val, bindings []Val, st *State) ([]Val, *State) {
 		fr.atReturn(fr.lastRet, vals, out)
 	}
 	return vals, out
+}
+
+// scopeOf: the innermost loop whose body (excluding its header) contains block b
+func (fr *Frame) scopeOf(b *ssa.BasicBlock) *loopInfo {
+	var best *loopInfo
+	for _, li := range fr.loops {
+		if li.body[b] && li.header != b {
+			if best == nil || len(li.body) < len(best.body) {
+				best = li
+			}
+		}
+	}
+	if best == nil {
+		// a header block belongs to the scope of its parent loop
+		if li, ok := fr.loops[b]; ok {
+			return li.parent
+		}
+	}
+	return best
 }
 
 func (fr *Frame) edgeGuard(p, b *ssa.BasicBlock) (Term, *State) {
@@ -1427,6 +1474,9 @@ func (fr *Frame) execInstr(ins ssa.Instruction, st *State) {
 		v := fr.val(x.Val)
 		l := fx.ptrLoc(pv, elem)
 		fx.frameCheck(fr, ins, st, l, fr.describe(x.Addr))
+		if _, isIA := x.Addr.(*ssa.IndexAddr); isIA && fx.eng.isProtoMsgPtr(elem) && v.t != "" {
+			fr.safety("safe:protoelem", ins, fr.describe(x.Addr), st, not(eq(v.t, "nilref")))
+		}
 		fx.store(st, l, fx.encode(v, x.Val.Type()))
 	case *ssa.UnOp:
 		fr.execUnOp(x, st)
@@ -1488,6 +1538,9 @@ func (fr *Frame) execInstr(ins ssa.Instruction, st *State) {
 		lenv := fr.val(x.Len).t
 		capv := fr.val(x.Cap).t
 		fr.safety("safe:makeslice", ins, fr.describe(x), st, fmt.Sprintf("(and (<= 0 %s) (<= %s %s))", lenv, lenv, capv))
+		if fx.eng.isProtoMsgPtr(x.Type().Underlying().(*types.Slice).Elem()) {
+			fr.safety("safe:protoelem", ins, "make", st, eq(lenv, "0"))
+		}
 		ref := fx.allocRef(st, capv)
 		et := x.Type().Underlying().(*types.Slice).Elem()
 		key, srt := tm.heapKey(et)
@@ -1615,6 +1668,14 @@ func (fr *Frame) execUnOp(x *ssa.UnOp, st *State) {
 		v := fx.load(st, l)
 		v = fx.s.define(x.Name(), fx.tm.sortOf(elem), v)
 		fx.assumeOld(st, elem, v)
+		if ia, ok := x.X.(*ssa.IndexAddr); ok && fx.eng.isProtoMsgPtr(elem) {
+			if _, isSlice := ia.X.Type().Underlying().(*types.Slice); isSlice {
+				// type invariant of generated messages: elements of repeated message fields are never nil
+				// (established by proto.Unmarshal, preserved by every store of the repository: safe:protoelem)
+				fx.assump["type invariant: elements of repeated protobuf message fields are non-nil (assumed of proto.Unmarshal, checked at every store of the repository)"] = true
+				fx.s.assume(st.guard, not(eq(v, "nilref")))
+			}
+		}
 		fr.env[x] = Val{t: v}
 	case token.NOT:
 		fr.bind(x, Val{t: not(fr.val(x.X).t)})
